@@ -45,4 +45,10 @@ static void vp_free (void *p, void *ud) {
   free (p);
 }
 struct MIR_alloc vp_alloc = {vp_malloc, vp_calloc, vp_realloc, vp_free, NULL};
+/* precondition form: CBMC resolves data-pointer dereferences through value sets, which an assumed
+   equality (a == &vp_alloc) does not feed; function pointers are dispatched by value comparison, so
+   a fresh MIR_alloc object whose members are assumed equal to the model functions works. */
+#define VP_ALLOC_OK(a)                                                                         \
+  (__CPROVER_is_fresh (a, sizeof (struct MIR_alloc)) && (a)->malloc == vp_malloc               \
+   && (a)->calloc == vp_calloc && (a)->realloc == vp_realloc && (a)->free == vp_free)
 #endif
